@@ -854,7 +854,8 @@ impl Property for C14 {
         // S on the real output
         if f("p1") != "1" {
             out.tag("P1-violated");
-            out.fail(Kind::ImplVsSpec, "P1", format!("P1 {}", f("mm")), format!("deleting the inserted discretionaries does not give the input back\n{}", detail()));
+            let sig = format!("P1 {}{}", f("mm"), if nd == 0 { " without any discretionary" } else { "" });
+            out.fail(Kind::ImplVsSpec, "P1", sig, format!("deleting the inserted discretionaries does not give the input back\n{}", detail()));
         }
         if f("p2") != "1" {
             out.tag("P2-violated");
